@@ -18,6 +18,12 @@ What is state (read from the code at /repo, after the repairs 9510742, 981b773, 
   `rtf_encode()` assigns into a component or a frame (`df.clone()`, `model_copy`, `deepcopy` before
   every per-page write).                                                          → `World.heap`, `World.frames`
 * documents constructed so far are process-local objects.                         → `World.docs`
+* the interpreter's string-hash seed (`PYTHONHASHSEED`; random at every start unless pinned) is part of the
+  state the process starts from: it fixes the iteration order of every `set`/`dict` of `str`.  The library
+  iterates one such set on the way to the output: `collect_document_colors` returns `list(set(...))`
+  (re-sorted by master index before anything is written).  The `page_by` / `subline_by` / `group_by` columns,
+  the displayed columns and the text formats are iterated as the user's lists (`sorted(set(...))` for the
+  formats).                                                                        → `World.seed`, `enumSet`
 * `strwidth.get_string_width` (pagination measures every cell with it; also public) opens the font file
   on every call and keeps nothing: no state.  `Op.measure` is therefore a step that leaves the world
   alone.  What a *store* of measurements / loaded fonts would have to satisfy to keep that true is
@@ -125,6 +131,17 @@ def colorTable (T : Table) (used : List Color) : Option (List Color) :=
 def dedup : List Color → List Color
   | [] => []
   | c :: cs => if c ∈ cs then dedup cs else c :: dedup cs
+
+/-- the interpreter's string hash (`PYTHONHASHSEED`, drawn when the process starts): an arbitrary function of the
+seed and the characters (the real one is SipHash-1-3; nothing below depends on which function it is) -/
+def strHash (seed : Nat) (c : Str) : Nat :=
+  c.foldl (fun h ch => (h * 1000003 + ch.toNat + 1) % 4294967291) (seed % 4294967291 + 7)
+
+/-- `list(set(xs))` / `for x in set(xs)` in a process whose hash seed is `seed`: the distinct members, enumerated
+in the order of their hash slots (here: by `strHash seed`, ties in first-occurrence order).  Every seed gives a
+permutation of `dedup xs`; which one is what a program must not depend on. -/
+def enumSet (seed : Nat) (xs : List Str) : List Str :=
+  (sortByIndex ((dedup xs).map (fun c => (c, strHash seed c)))).map (·.1)
 
 /-! ## objects -/
 
@@ -325,8 +342,8 @@ column headers -/
 def docObjs (h : Heap) (d : Doc) : List Obj :=
   getAll h (d.secs.map (·.2)) ++ getAll h (d.others.map .ref) ++ getAll h (headerComps d.headers)
 
-/-- `collect_document_colors(document)` = `list(set(...))` in the canonical enumeration -/
-def collect (h : Heap) (d : Doc) : List Color := dedup ((docObjs h d).flatMap (·.colors))
+/-- `collect_document_colors(document)` = `list(set(...))`, enumerated as the process's hash seed has it -/
+def collect (seed : Nat) (h : Heap) (d : Doc) : List Color := enumSet seed ((docObjs h d).flatMap (·.colors))
 
 /-- headers that apply to section `i` -/
 def secHeaders (d : Doc) (i : Nat) : List Comp :=
@@ -375,10 +392,19 @@ def strategyName (o : Obj) : Str :=
 def removedCols (o : Obj) : List Str :=
   o.sublineBy ++ (if o.newPage && o.pagebyColumn then [] else o.pageBy)
 
+/-- `page_by` columns whose values are emitted as spanning heading rows (one row per column, top to bottom, at
+the top of a page and where a group changes): the body's `page_by` **in the order the user wrote it**
+(`_get_group_headers` / `_detect_group_boundaries` iterate the list; no set is involved) — unless the columns
+stay table columns (`new_page=True, pageby_row="column"`). -/
+def headingCols (o : Obj) : List Str :=
+  if o.newPage && o.pagebyColumn then [] else o.pageBy
+
 structure SecProj where
   strategy : Strategy
   bodyWidths : List Width
   headerWidths : List (Option (List Width))
+  headings : List Str            -- page_by columns in the order their spanning rows are written
+  sublines : List Str            -- subline_by columns in the order their values are joined into the subline heading
   deriving DecidableEq, Repr
 
 /-- the state-dependent part of an encoded document -/
@@ -394,6 +420,9 @@ inductive Outcome where
   deriving DecidableEq, Repr
 
 structure World where
+  /-- the interpreter's string-hash seed: drawn at process start (`PYTHONHASHSEED`), never changes afterwards,
+  fixes the iteration order of every `set` / `dict` of strings the process builds -/
+  seed : Nat
   ctx : Option (List Color)
   registry : Registry
   heap : Heap
@@ -417,7 +446,8 @@ def encodeSec (w : World) (d : Doc) (i : Nat) (s : FrameId × Comp) : Except Err
                    then ((bw.zip f.cols).filter (fun p => !removed.contains p.2)).map (·.1) else bw
         if !f.rows.isEmpty && bw'.length < shown then .error .indexError   -- `col_widths[j]` while rendering
         else .ok { strategy := st, bodyWidths := bw,
-                   headerWidths := (secHeaders d i).map (fun c => (c.get w.heap).bind (·.widths)) }
+                   headerWidths := (secHeaders d i).map (fun c => (c.get w.heap).bind (·.widths)),
+                   headings := headingCols o, sublines := o.sublineBy }
   | _, _ => .error .dangling
 
 def encodeSecs (w : World) (d : Doc) : Nat → List (FrameId × Comp) → Except Err (List SecProj)
@@ -435,7 +465,7 @@ def encodeWithContext (T : Table) (w : World) (d : Doc) : Outcome :=
   match encodeSecs w d 0 d.secs with
   | .error e => .error e
   | .ok secs =>
-    match colorTable T (collect w.heap d) with
+    match colorTable T (collect w.seed w.heap d) with
     | none => .error .valueError                          -- ColorValidationError from `encode_color_table`
     | some tbl =>
       .ok { table := tbl,
@@ -447,7 +477,7 @@ def encodeWithContext (T : Table) (w : World) (d : Doc) : Outcome :=
 `try: _encode_with_context(document)  finally: clear_document_context()` -/
 def encodeDoc (T : Table) (w : World) (d : Doc) : World × Outcome :=
   let w1 := { w with registry := registerAll w.registry }
-  let w2 := { w1 with ctx := some (collect w1.heap d) }
+  let w2 := { w1 with ctx := some (collect w1.seed w1.heap d) }
   let r := encodeWithContext T w2 d
   ({ w2 with ctx := none }, r)
 
@@ -508,9 +538,10 @@ def encodeCtor (T : Table) (w : World) (c : Ctor) : World × Outcome :=
   | .ok d => encodeDoc T w d
   | .error e => (w, .error e)
 
-/-- the state of a process that has imported rtflite and created the caller's objects, nothing else -/
-def fresh (h : Heap) (fs : Frames) : World :=
-  { ctx := none, registry := [], heap := h, frames := fs, docs := [] }
+/-- the state of a process that has imported rtflite and created the caller's objects, nothing else; `seed` is
+the hash seed the interpreter drew when it started ("a fresh interpreter" is one for every seed) -/
+def fresh (h : Heap) (fs : Frames) (seed : Nat := 0) : World :=
+  { seed := seed, ctx := none, registry := [], heap := h, frames := fs, docs := [] }
 
 /-! ## the two historical behaviours, kept for the witnesses -/
 namespace Legacy
@@ -550,7 +581,7 @@ def encodeDoc (T : Table) (w : World) (d : Doc) : World × Outcome :=
   let w1 := { w with registry := registerAll w.registry }
   match d.kind with
   | .single =>
-    let w2 := { w1 with ctx := some (collect w1.heap d) }
+    let w2 := { w1 with ctx := some (collect w1.seed w1.heap d) }
     match encodeWithContext T w2 d with
     | .ok p => ({ w2 with ctx := none }, .ok p)
     | .error e => (w2, .error e)
